@@ -61,7 +61,8 @@ func (n *Names) ItemSeed(it *models.Item) string {
 	if s.GetURL() != nil {
 		raw = s.GetURL().Raw
 	}
-	return n.Seed(s.GetID(), raw)
+	// not a queue row (an outlink on its way to the queue, a directly inserted seed): do not consume a row name
+	return "new:" + raw
 }
 
 func itemKey(it *models.Item) string {
